@@ -5,7 +5,8 @@ A: StreamSM (TLC): a reference incremental framer that keeps the RAW tail from t
    (Arrive(n) for every n) of streams with special bytes at every body position, plus Complete and AppendOnly.
 B: the model's streams (its initial states, dumped) -> the real TcpClient: every single cut, pairs of cuts, 1-byte pieces,
    seeded multi-cuts; NetSource fed with message batches.
-Link: the whole receive path as one model (Trace_Link): TcpClient/NetSource -> pipe -> Decode wired together under a virtual
+Link: the whole receive path as one model (Trace_Link): the real receive loop TcpClient.run of a NetSource on a scripted
+   socket object (one piece per recv, receive time-outs in between) -> pipe -> Decode wired together under a virtual
    clock, fed with Beast / raw streams of aircraft histories cut at random; framing, NetSource batching and the resulting
    table are checked step by step against Stream, the NetSource rule and Tracker.Process.
 C: every run is a trace (start / step ...) validated by TLC (Trace_Stream) step by step; plus seeded random streams
